@@ -88,3 +88,54 @@ func init() {
 		},
 	}
 }
+
+
+func init() {
+	properties["C20"] = &Property{
+		ID:     "C20",
+		Title:  "Isolation level mapping is a deterministic, consistent function",
+		Pkgs:   []string{"."},
+		Funcs:  []string{`^dblib\.ASEIsolationLevelFromGo$`, `^\(dblib\.ASEIsolationLevel\)\.(ToGo|String)$`},
+		Lemmas: []string{`^dblib\.roundtrip$`},
+		Assumptions: []string{
+			"database/sql.IsolationLevel.String is a pure function of its receiver",
+			"the package-level table sql2ase is not modified after initialisation (no writes in the repository; read from its literal on every run)",
+			"iteration over a map is modelled as yielding any present key in any order, so a result that depends on iteration order cannot satisfy a functional postcondition",
+		},
+		Notes: []string{"determinism is not sampled: each postcondition names the one value the function must return for every int argument"},
+	}
+}
+
+func init() {
+	properties["C19"] = &Property{
+		ID:    "C19",
+		Title: "A version has a capability exactly inside the capability's ranges",
+		Pkgs:  []string{"./capability"},
+		Funcs: []string{`^\(capability\.VersionRange\)\.contains$`, `^\(capability\.Target\)\.(SetCapabilities|Version)$`, `^capability\.(NewCapability|NewDefaultVersion|VersionCompareSemantic)$`, `^\(\*?capability\.DefaultVersion\)\.(Has|SetCapability|VersionString)$`},
+		Assumptions: []string{
+			"the version comparer is a deterministic function of its two arguments (uninterpreted uf_cmp / ufb_cmperr); for the default comparer the go-version library is trusted",
+			"string equality is identity of string values in the model (sound over-approximation)",
+		},
+		Notes: []string{
+			"decided for all strings and every comparer: VersionRange.contains returns exactly inrange(lower, upper, version) (inclusive lower, exclusive upper, missing bound unbounded, empty range contains nothing) and fails exactly when a needed comparison fails; never a silent answer on error",
+			"Target.SetCapabilities / Version, NewCapability, DefaultVersion: memory safety, pairing count and constructor postconditions; the first-containing-range-wins loop is not yet tied to the set-level statement (exists over ranges) and order independence is not mechanised",
+		},
+	}
+}
+
+func init() {
+	properties["C18"] = &Property{
+		ID:    "C18",
+		Title: "Pooled names are unique among concurrent holders",
+		Pkgs:  []string{"./namepool"},
+		Funcs: []string{`^namepool\.Pool(\$1)?$`, `^\(\*namepool\.pool\)\.(Acquire|Release)$`, `^\(\*namepool\.Name\)\.Release$`, `^\(namepool\.Name\)\.(ID|Name)$`},
+		Assumptions: []string{
+			"sync.Pool.Get returns a value previously Put or the result of New (assumed contract in namepool/contracts_verif.go); sync/atomic.AddUint64 is one atomic action",
+			"goroutine interleavings are not modelled: each method is verified as sequential code; the lifting to concurrent histories (every method performs its shared effect in one library-atomic action) is an argument in DESIGN.md, not a machine-checked proof",
+		},
+		Notes: []string{
+			"decided: the minting closure returns a fresh cell holding counter+1 (never zero before 2^64 ids), Acquire returns a fresh Name holding a non-nil id and its pool, Release clears the Name and is a no-op for nil / already released names (no nil id can enter the pool), all memory-safety obligations",
+			"not decided: uniqueness of ids among concurrent holders under arbitrary schedules; the race detector's verdict",
+		},
+	}
+}
